@@ -67,6 +67,7 @@ SPEC = dict(
         'curves, sensors and PID state shared; API and metrics requests concurrent with everything and with each other)',
         'locks: function-level `mu.Lock(); defer mu.Unlock()` only; an instance mutex guards the fields of its own receiver in that function, a package-level mutex guards the callees too',
         'reflection (reprint.This, encoding/json, echo JSON*) reads every field of every module type reachable from the static argument type; json.Unmarshal writes its target',
+        'a whole module struct copied through a pointer (x := *p, f(*p), a value-receiver method called on a pointer or on an interface holding one) is an unlocked read of every field incl. mutex words at that site',
         'a pointer to a module struct or a module interface value converted to `any` (argument of ui.Warning / fmt.*: %v formatting) is an unlocked read of every field of the struct(s)',
     ],
     trusted_base=[
